@@ -61,4 +61,8 @@ def khatrirao(*matrices: np.ndarray, reverse: bool = False) -> np.ndarray:
         P = np.reshape(i, newshape=(-1, 1, ncolFirst)) * np.reshape(
             P, newshape=(1, -1, ncolFirst), order="F"
         )
-    return np.reshape(P, newshape=(-1, ncolFirst), order="F")
+    result = np.reshape(P, newshape=(-1, ncolFirst), order="F")
+    if len(matrices) == 1:
+        # Nothing was multiplied, do not hand back (a view of) the input
+        result = result.copy()
+    return result
